@@ -82,10 +82,8 @@ func (f *Dox) Call(s *slip.Scope, args slip.List, depth int) (result slip.Object
 					}
 					return tr
 				case *GoTo:
-					for i++; i < len(args); i++ {
-						if args[i] == tr.Tag {
-							break
-						}
+					if i = tagIndex(args, 2, tr.Tag); i < 0 {
+						return tr // a tag of an enclosing tagbody
 					}
 				}
 				// Anything other than ReturnResult or GoTo just continues.
